@@ -113,7 +113,7 @@ type c05Op struct {
 }
 
 func soloDigest(c *Case, src string, ctx *xdoc.Node, mode string, k int) string {
-	ce, err := xpath.Compile(src)
+	ce, err := safeCompile(src)
 	if err != nil {
 		return "COMPILE-ERROR"
 	}
@@ -174,8 +174,12 @@ func c05Expr(g *xgen.G, env *xgen.Env) string {
 		"reverse(//*)", "lower-case(.)", "string-length(.) + count(*)", "//*[not(preceding-sibling::*)]", "//a[b = c]", "//*[@id = //@id]", "boolean(//a[2])",
 		"substring(., 2, 3)", "ends-with(., '0')", "name(//*[3])", "number(.) * 2", "floor(sum(//@id[number(.) = number(.)]))", "//b[contains(., '1') or @k]",
 	}
-	if g.Chance(0.55) {
+	switch r := g.Intn(10); {
+	case r < 4:
 		return fixed[g.Intn(len(fixed))]
+	case r < 7:
+		// every function over arguments of arbitrary shape (operators applied directly to node-sets, stacked predicates, ...)
+		return xref.Render(g.FuncOverShapes(env))
 	}
 	return xref.Render(anyExpr(g, env))
 }
@@ -190,7 +194,7 @@ func c05Round(c *Case) {
 	var shared []*xpath.Expr
 	for len(srcs) < nexpr {
 		s := c05Expr(g, env)
-		ce, err := xpath.Compile(s)
+		ce, err := safeCompile(s)
 		if err != nil {
 			continue
 		}
@@ -250,7 +254,7 @@ func c05Round(c *Case) {
 				case "select", "select-abandoned", "evaluate":
 					op.got = opDigest(shared[op.expr], ctxs[op.ctx], op.kind, op.k, yield)
 				case "compile":
-					ce, err := xpath.Compile(srcs[op.expr])
+					ce, err := safeCompile(srcs[op.expr])
 					if err != nil {
 						op.got = "COMPILE-ERROR " + err.Error()
 					} else {
